@@ -196,6 +196,7 @@ type zvPeerOpts struct {
 	AddPathTX   uint // 0 = best only, n = MaxPaths n
 	IPv6        bool
 	RRClient    bool
+	ClusterID   uint32 // cluster_id as configured (a group's cluster_id reaches every neighbour of the group, client or not)
 	RSClient    bool
 	Role        uint8
 	RoleStrict  bool
@@ -265,6 +266,7 @@ func (w *zvWorld) peerConfig(o zvPeerOpts) PeerConfig {
 		LocalAS: zvLocalAS, PeerAS: peerAS, Passive: o.Passive, RouterID: zvRouterID,
 		RouteServerClient: o.RSClient, RouteReflectorClient: o.RRClient, PeerRole: o.Role, PeerRoleStrictMode: o.RoleStrict,
 		AdvertiseIPv4MultiProtocol: o.MPv4,
+		RouteReflectorClusterID:    o.ClusterID,
 		VRF:  w.vrf,
 		IPv4: &AddressFamilyConfig{ImportFilterChain: imp, ExportFilterChain: exp, AddPathSend: send, AddPathRecv: o.AddPathRX},
 	}
